@@ -121,6 +121,9 @@ Proof. reflexivity. Qed.
 Lemma walk_0 next a last : walk next 0 a last = if it_eq a last then Some [] else None.
 Proof. reflexivity. Qed.
 
+Lemma walk_same next fuel a : walk next fuel a a = Some [].
+Proof. destruct fuel, a; simpl; try rewrite Nat.eqb_refl; reflexivity. Qed.
+
 (* walking with a traversable iterator visits consecutive positions up to last *)
 Lemma walk_trav next n last : it_wf n last ->
   (forall i, i < n -> next (At i true) = if S i <? n then At (S i) true else End) ->
@@ -186,13 +189,14 @@ Proof.
            ++ subst ps. rewrite seq_length. simpl in *. lia.
         -- subst ps. rewrite seq_length. destruct last; simpl in *; lia.
   - (* lookup-derived *)
-    simpl in Hf. assert (n = S (Nat.pred n)) as En by lia. 
-    destruct last as [|j tj]; simpl it_eq.
-    + simpl. simpl in W. inversion W; subst. exists i, 1. replace (i + 1) with (S i) by lia.
+    simpl in Hf. rewrite walk_S in W.
+    destruct last as [|j tj]; simpl it_eq in *.
+    + simpl us_next in W. rewrite walk_same in W. simpl in W. injection W as <-.
+      unfold us_erase_one. exists i, 1. replace (i + 1) with (S i) by lia.
       repeat split; auto; discriminate.
-    + simpl in W. simpl in Hl. destruct (Nat.eqb_spec i j).
-      * inversion W; subst. exists j, 0. rewrite erase_nothing. repeat split; auto; discriminate.
-      * discriminate.
+    + simpl in Hl. destruct (Nat.eqb_spec i j).
+      * injection W as <-. subst. exists j, 0. rewrite erase_nothing. repeat split; auto; discriminate.
+      * simpl us_next in W. destruct n; [lia|]. rewrite walk_S in W. simpl in W. discriminate.
 Qed.
 
 (* the pre-fix shape is wrong: erase(equal_range(k)) for the first-traversed key cleared the container *)
@@ -202,3 +206,159 @@ Theorem us_erase_range_prefix_refuted : exists l first last ps,
   us_erase_range_prefix l first last = Done [] None /\
   us_erase_range l first last = Done [(2%Z, 0%Z)] None.
 Proof. exists [(1%Z, 0%Z); (2%Z, 0%Z)], (At 0 false), End, [0]. vm_compute. repeat split; auto. Qed.
+
+(* ---------------- unordered_multimap ---------------- *)
+Lemma skipn_cons_nth (l : list elem) p : p < length l -> skipn p l = nth p l dflt :: skipn (S p) l.
+Proof.
+  revert p; induction l as [|e t IH]; intros p Hp; [simpl in Hp; lia|].
+  destruct p; [reflexivity|]. change (skipn p t = nth p t dflt :: skipn (S p) t). apply IH. simpl in Hp. lia.
+Qed.
+Lemma run_len_le k l : run_len k l <= length l.
+Proof. induction l; simpl; auto. destruct (_ =? _)%Z; lia. Qed.
+Lemma kend_unfold l p : p < length l -> kend l p = S p + run_len (keyat l p) (skipn (S p) l).
+Proof.
+  intros Hp. unfold kend. rewrite (skipn_cons_nth l p Hp). simpl. unfold keyat. rewrite Z.eqb_refl. lia.
+Qed.
+Lemma kend_bounds l p : p < length l -> p < kend l p <= length l.
+Proof.
+  intros Hp. rewrite kend_unfold by auto. pose proof (run_len_le (keyat l p) (skipn (S p) l)).
+  rewrite skipn_length in H. lia.
+Qed.
+Lemma kend_next l p : p < length l -> S p < kend l p -> S p < length l /\ kend l (S p) = kend l p.
+Proof.
+  intros Hp H. pose proof (kend_bounds l p Hp). assert (Hs : S p < length l) by lia. split; auto.
+  rewrite (kend_unfold l p Hp) in *. unfold kend. rewrite (skipn_cons_nth l (S p) Hs) in *.
+  simpl in H. simpl. fold (keyat l (S p)) in *. rewrite Z.eqb_refl.
+  destruct (Z.eqb_spec (keyat l (S p)) (keyat l p)) as [E|E]; [rewrite E; lia|lia].
+Qed.
+
+(* walking with a lookup-derived multimap iterator stays inside the key, then reaches end() *)
+Lemma walk_lookup l last E : it_wf (length l) last ->
+  forall fuel p ps, p < length l -> kend l p = E ->
+  walk (mm_next l) fuel (At p false) last = Some ps ->
+  exists q, p <= q <= E /\ ps = seq p (q - p) /\
+            ((q < E /\ exists t, last = At q t) \/ (q = E /\ last = End)).
+Proof.
+  intros Hl. induction fuel as [|f IH]; intros p ps Hp HE.
+  - rewrite walk_0. destruct last as [|j tj]; simpl; try discriminate.
+    destruct (Nat.eqb_spec p j); try discriminate. intros W; injection W as <-. subst j.
+    pose proof (kend_bounds l p Hp). exists p. rewrite Nat.sub_diag. repeat split; try lia. left. split; [lia|eauto].
+  - rewrite walk_S. pose proof (kend_bounds l p Hp) as KB.
+    destruct (it_eq (At p false) last) eqn:Eq.
+    + intros W; injection W as <-. destruct last as [|j tj]; simpl in Eq; try discriminate.
+      apply Nat.eqb_eq in Eq. subst j. exists p. rewrite Nat.sub_diag. repeat split; try lia. left. split; [lia|eauto].
+    + simpl mm_next. rewrite HE. destruct (Nat.ltb_spec (S p) E) as [Lt|Ge].
+      * destruct (kend_next l p Hp ltac:(lia)) as [Hs Hk].
+        destruct (walk (mm_next l) f (At (S p) false) last) as [ps'|] eqn:W'; simpl; try discriminate.
+        intros W; injection W as <-. destruct (IH (S p) ps' Hs ltac:(lia) W') as [q [Q1 [Q2 Q3]]].
+        exists q. repeat split; try lia; auto. rewrite Q2. replace (q - p) with (S (q - S p)) by lia. reflexivity.
+      * destruct last as [|j tj].
+        -- rewrite walk_same. simpl. intros W; injection W as <-. exists E.
+           replace (E - p) with 1 by lia. repeat split; try lia. right; auto.
+        -- destruct f; simpl; discriminate.
+Qed.
+
+Theorem mm_erase_range_cases l first last ps :
+  let n := length l in
+  it_wf n first -> it_wf n last ->
+  walk (mm_next l) (S n) first last = Some ps ->
+  match mm_erase_range l first last with
+  | Throw => 2 <= length ps
+  | Done rest ret => exists i m, ps = seq i m /\ rest = erase_range i (i + m) l
+  end.
+Proof.
+  intros n Hf Hl W. unfold mm_erase_range.
+  destruct first as [|p [|]].
+  - (* first = end *)
+    rewrite walk_S in W. destruct last; simpl in *; try discriminate. injection W as <-.
+    exists 0, 0. rewrite erase_nothing. auto.
+  - (* traversable *)
+    simpl in Hf.
+    destruct (walk_trav (mm_next l) n last Hl ltac:(intros; reflexivity) (S n) p ps Hf W) as [A B].
+    pose proof (kend_bounds l p Hf) as KB.
+    rewrite (it_eq_pos n) by (simpl; auto). simpl pos_of.
+    destruct (Nat.eqb_spec p (pos_of n last)) as [E|E].
+    + exists p, 0. rewrite erase_nothing. subst ps. rewrite <- E, Nat.sub_diag. auto.
+    + assert (Hnx : it_wf n (mm_next l (At p true))) by (simpl; destruct (Nat.ltb_spec (S p) (length l)); simpl; auto).
+      rewrite (it_eq_pos n (mm_next l (At p true))) by auto.
+      assert (Pn : pos_of n (mm_next l (At p true)) = S p) by (simpl; destruct (Nat.ltb_spec (S p) (length l)); simpl; unfold n; lia).
+      rewrite Pn. destruct (Nat.eqb_spec (S p) (pos_of n last)) as [E1|E1].
+      * unfold mm_erase_one. exists p, 1. subst ps. rewrite <- E1. replace (S p - p) with 1 by lia.
+        replace (p + 1) with (S p) by lia. auto.
+      * assert (Hkl : it_wf n (mm_key_last l p true)) by (unfold mm_key_last; destruct (Nat.ltb_spec (kend l p) (length l)); simpl; auto).
+        assert (Pk : pos_of n (mm_key_last l p true) = kend l p) by (unfold mm_key_last; destruct (Nat.ltb_spec (kend l p) (length l)); simpl; unfold n; lia).
+        rewrite (it_eq_pos n last) by auto. rewrite Pk.
+        destruct ((p =? kstart l p) && (pos_of n last =? kend l p)) eqn:C.
+        -- apply andb_true_iff in C. destruct C as [_ C]. apply Nat.eqb_eq in C.
+           exists p, (kend l p - p). subst ps. rewrite C. replace (p + (kend l p - p)) with (kend l p) by lia. auto.
+        -- unfold mm_step3. rewrite (it_eq_pos n) by (simpl; auto; unfold us_begin; destruct (Nat.eqb_spec (length l) 0); simpl; auto; unfold n; lia).
+           assert (Pb : pos_of n (us_begin (length l)) = 0) by (unfold us_begin; destruct (Nat.eqb_spec (length l) 0); simpl; unfold n; lia).
+           rewrite Pb. simpl pos_of. destruct (Nat.eqb_spec p 0) as [E2|E2]; simpl.
+           ++ destruct last as [|j tj]; simpl.
+              ** exists 0, n. subst p ps. unfold pos_of. rewrite Nat.sub_0_r.
+                 change (erase_range 0 (0 + n) l) with (erase_range 0 (0 + length l) l). rewrite erase_all. auto.
+              ** subst ps. rewrite seq_length. simpl in *. lia.
+           ++ subst ps. rewrite seq_length. lia.
+  - (* lookup-derived *)
+    simpl in Hf. pose proof (kend_bounds l p Hf) as KB.
+    destruct (walk_lookup l last (kend l p) Hl (S n) p ps Hf eq_refl W) as [q [Q1 [Q2 Q3]]].
+    destruct (it_eq (At p false) last) eqn:Eq.
+    + destruct last as [|j tj]; simpl in Eq; try discriminate. apply Nat.eqb_eq in Eq. subst j.
+      destruct Q3 as [[_ [t Q3]]|[_ Q3]]; try discriminate. injection Q3 as <- <-.
+      exists p, 0. rewrite erase_nothing. subst ps. rewrite Nat.sub_diag. auto.
+    + simpl mm_next. destruct (Nat.ltb_spec (S p) (kend l p)) as [Lt|Ge].
+      * (* next stays in the key *)
+        destruct (it_eq (At (S p) false) last) eqn:Eq1.
+        -- destruct last as [|j tj]; unfold it_eq in Eq1; try discriminate. apply Nat.eqb_eq in Eq1. subst j.
+           destruct Q3 as [[_ [t Q3]]|[_ Q3]]; try discriminate. injection Q3 as <- <-.
+           unfold mm_erase_one. exists p, 1. subst ps. replace (S p - p) with 1 by lia. replace (p + 1) with (S p) by lia. auto.
+        -- unfold mm_key_last. destruct last as [|j tj].
+           ++ simpl it_eq. rewrite andb_true_r. destruct Q3 as [[_ [t Q3]]|[Q3 _]]; try discriminate. subst q.
+              destruct (Nat.eqb_spec p (kstart l p)).
+              ** exists p, (kend l p - p). replace (p + (kend l p - p)) with (kend l p) by lia. auto.
+              ** unfold mm_step3. simpl it_eq. rewrite andb_true_r.
+                 unfold us_begin. destruct (Nat.eqb_spec (length l) 0); [unfold n in *; lia|]. simpl.
+                 destruct (Nat.eqb_spec p 0).
+                 --- exfalso. subst p. unfold kstart in *. simpl in *. lia.
+                 --- subst ps. rewrite seq_length. lia.
+           ++ simpl it_eq. rewrite andb_false_r. unfold mm_step3. simpl it_eq. rewrite andb_false_r.
+              destruct Q3 as [[Q3 [t Q4]]|[_ Q3]]; try discriminate. injection Q4 as <- <-.
+              unfold it_eq in Eq, Eq1. apply Nat.eqb_neq in Eq, Eq1. subst ps. rewrite seq_length. lia.
+      * (* p is the last value of its key: next is end() *)
+        assert (kend l p = S p) by lia.
+        destruct last as [|j tj].
+        -- simpl it_eq. unfold mm_erase_one. destruct Q3 as [[_ [t Q3]]|[Q3 _]]; try discriminate. subst q.
+           exists p, 1. subst ps. replace (kend l p - p) with 1 by lia. replace (p + 1) with (S p) by lia. auto.
+        -- simpl it_eq. unfold mm_key_last. simpl it_eq. rewrite andb_false_r. unfold mm_step3. simpl it_eq. rewrite andb_false_r.
+           destruct Q3 as [[Q3 [t Q4]]|[_ Q3]]; try discriminate. injection Q4 as <- <-.
+           simpl in Eq. apply Nat.eqb_neq in Eq. lia.
+Qed.
+
+(* both pre-fix mistakes have concrete witnesses *)
+Theorem mm_erase_range_prefix_refuted :
+  (exists l first last ps, it_wf (length l) first /\ it_wf (length l) last /\
+     walk (mm_next l) (S (length l)) first last = Some ps /\ ps = [1; 2] /\
+     mm_erase_range_prefix l first last = Done [] None /\                 (* range starting mid-key removed the whole key *)
+     mm_erase_range l first last = Throw) /\
+  (exists l first last ps, it_wf (length l) first /\ it_wf (length l) last /\
+     walk (mm_next l) (S (length l)) first last = Some ps /\ ps = [0; 1] /\
+     mm_erase_range_prefix l first last = Done [] None /\                 (* erase(equal_range(first key)) cleared everything *)
+     mm_erase_range l first last = Done [(2%Z, 20%Z)] None).
+Proof.
+  split.
+  - exists [(1%Z, 10%Z); (1%Z, 11%Z); (1%Z, 12%Z)], (At 1 true), End, [1; 2]. vm_compute. repeat split; auto.
+  - exists [(1%Z, 10%Z); (1%Z, 11%Z); (2%Z, 20%Z)], (At 0 false), End, [0; 1]. vm_compute. repeat split; auto.
+Qed.
+
+(* non-vacuity: each non-throwing kind of range occurs *)
+Example mm_erase_range_examples :
+  let l := [(1%Z, 10%Z); (1%Z, 11%Z); (2%Z, 20%Z); (3%Z, 30%Z)] in
+  mm_erase_range l (At 0 true) (At 2 true) = Done [(2%Z, 20%Z); (3%Z, 30%Z)] (Some (2%Z, 20%Z)) /\
+  mm_erase_range l (At 0 false) End = Done [(2%Z, 20%Z); (3%Z, 30%Z)] None /\
+  mm_erase_range l (At 1 true) (At 2 true) = Done [(1%Z, 10%Z); (2%Z, 20%Z); (3%Z, 30%Z)] (Some (2%Z, 20%Z)) /\
+  mm_erase_range l (At 0 true) End = Done [] None /\
+  mm_erase_range l (At 0 true) (At 3 true) = Throw /\
+  us_erase_range l (At 1 true) (At 2 false) = Done [(1%Z, 10%Z); (2%Z, 20%Z); (3%Z, 30%Z)] (Some (2%Z, 20%Z)) /\
+  us_erase_range l (At 1 false) End = Done [(1%Z, 10%Z); (2%Z, 20%Z); (3%Z, 30%Z)] None /\
+  us_erase_range l (At 1 true) End = Throw.
+Proof. vm_compute. repeat split; auto. Qed.
